@@ -26,16 +26,19 @@ TRUSTED = [
     'T6 a pickle.Pickler whose dispatch_table attribute is set consults only that table in place of copyreg.dispatch_table; '
     'the C pickler looks a non-exact-dict table up with __getitem__ (KeyError = no entry); reduction via the table entry of '
     'type(obj) precedes __reduce_ex__; a Pickler subclass overriding only __init__ behaves otherwise as pickle.Pickler',
-    'SupportRemoteGetState.supported_classes contains only opt-in classes (what the metaclass registers; its MRO loop is not under contract in this round)',
+    'reflection (type.__mro__, type.__dict__.get, inspect.signature(...).parameters) is modelled by uninterpreted predicates over type objects: which classes define which hooks is arbitrary, what the metaclass concludes from them is verified (L3)',
 ]
 ASSUMPTIONS = [
-    'L3 (the metaclass MRO loop: registration iff opt-in, Warning on inconsistent chains) is NOT verified in this round; it enters as the assumption that supported_classes holds only opt-in types',
+    'L3 verifies __check_type_cached; that issubclass(T, SupportRemoteGetState) is answered by it (__subclasscheck__) and that every class created with the metaclass is checked once (__init__) are two-line delegations, read, not verified; the dispatch-table lemmas use the predicate optin(T) for its answer',
     'L4 (remote_loads with no patches performs plain pickle.loads inside a RemoteState.context) is covered by C15.L3/L4',
     'the reduction of the property to the dispatch-table map is the pen-and-paper step stated in the module docstring',
 ]
 ABSTRACTED = ['pickle.Pickler.__init__: no-op (external)']
 
 MUTANTS = [
+    ('pyworkers/remote_pickle.py', "                    has_remote = True\n                elif inspect.Parameter.VAR_KEYWORD in param_kinds:", "                    has_remote = True\n                    break\n                elif inspect.Parameter.VAR_KEYWORD in param_kinds:", 'the MRO walk stops at the first remote-aware __getstate__ (a reduce hook further up no longer wins)'),
+    ('pyworkers/remote_pickle.py', "                    if not allow_remote:\n", "                    if False:\n", 'inconsistent chains are no longer rejected'),
+    ('pyworkers/remote_pickle.py', "        if has_remote:\n            assert t not in cls.supported_classes\n            cls.supported_classes.append(t)\n", "        assert t not in cls.supported_classes\n        cls.supported_classes.append(t)\n", 'every checked type is registered as opt-in'),
     (RP.replace('.RemotePickler36', '').replace('.', '/') + '.py', "            self.dispatch_table[cls] = self.remote_reduce\n", "            self.dispatch_table[cls] = self.remote_reduce\n            self.dispatch_table[int] = self.remote_reduce\n", 'a non-opt-in type is routed to remote_reduce'),
     (RP.replace('.RemotePickler36', '').replace('.', '/') + '.py', "                if issubclass(key, SupportRemoteGetState):\n                    return self.method\n", "                return self.method\n", 'every type missing from the table is treated as opt-in'),
     (RP.replace('.RemotePickler36', '').replace('.', '/') + '.py', "        if key not in self:\n", "        if key in self:\n", 'dynamic lookup inverted'),
@@ -162,7 +165,169 @@ def build(ex):
         name='C13.Ls RemotePickler36 overrides no pickle.Pickler attribute other than __init__ (structural, re-read from the class body each run)',
         params={'obj': ('const', None)}, self_class=RP, setup=struct_setup,
         ensures=['n_overridden == 0'], raises={}, raises_only=[])
-    return [(init_contract(True), None), (init_contract(False), None), (L1b, None), (Ls, None)]
+    return [(init_contract(True), None), (init_contract(False), None), (L1b, None), (Ls, None)] + optin_lemmas(ex)
+
+
+def optin_lemmas(ex):
+    """L3: what "opting in" means - SupportRemoteGetStateMeta.__check_type_cached walks t.__mro__[:-1] (everything but object).
+
+    Reflection is modelled by uninterpreted predicates over type objects:  red(b) (b's own __dict__ defines __reduce_ex__ or __reduce__),
+    gs(b) (defines __getstate__), rp(b) (that __getstate__ has a parameter named remote), vk(b) (it has a **kwargs parameter).
+    remote(b) := gs(b) and rp(b);   plain(b) := gs(b) and not rp(b) and not vk(b)   (a __getstate__ that cannot take the flag).
+    Specification (from the property text), for the MRO prefix P = t.__mro__[:-1]:
+      result  ==  no class in P defines a reduce hook  and  some class in P is remote;
+      Warning is raised only when a remote class is preceded by a plain one, and a normal return means no such pair exists before the point
+      where the walk stopped;  the type is registered in supported_classes iff the result is True;  the answer is cached."""
+    from pyvc.contracts import AbsClass
+    from pyvc.smt import ValList
+    repo = ex.repo
+    CHK = META + '.__check_type_cached'
+    red_ex = z3.Function('defines_reduce_ex', Val, smt.Bool)
+    red_ = z3.Function('defines_reduce', Val, smt.Bool)
+    gs = z3.Function('defines_getstate', Val, smt.Bool)
+    rp = z3.Function('getstate_has_remote_param', Val, smt.Bool)
+    vk = z3.Function('getstate_has_var_keyword', Val, smt.Bool)
+    mro = z3.Function('mro_of', Val, SeqVal)
+
+    def red(k):
+        return z3.Or(red_ex(k), red_(k))
+
+    def remote(k):
+        return z3.And(gs(k), rp(k))
+
+    def plain(k):
+        return z3.And(gs(k), z3.Not(rp(k)), z3.Not(vk(k)))
+
+    def ty_hint(I, name):
+        return VSym(I.ex.fresh(name, Val), hint=('abs', 'Ty'))
+
+    def classes():
+        def mro_attr(I, o):
+            exx = I.ex
+            full = mro(o.key)
+            exx.assume(z3.Length(full) >= 1)          # object is always last
+            r = exx.alloc(HSymList(full))
+            exx.heap[r.addr].elem_hint = ('abs', 'Ty')
+            return r
+
+        def dict_get(ex_, a, k):
+            d, name = a[0], a[1]
+            if not isinstance(name, VStr):
+                raise Undecided('type __dict__.get with a non-constant name')
+            if name.s == '__reduce_ex__':
+                return VBool(red_ex(d.key))
+            if name.s == '__reduce__':
+                return VBool(red_(d.key))
+            if name.s == '__getstate__':
+                if ex_.branch(gs(d.key), 'defines __getstate__'):
+                    return VAbs('Fn', d.key)
+                return NONE
+            raise Undecided(f'type __dict__.get({name.s!r})')
+        ty = AbsClass('Ty', fields={}, methods={}, attrs={'__mro__': mro_attr, '__dict__': lambda I, o: VAbs('TyDict', o.key), '__name__': lambda I, o: VStr('<str>')},
+                      text='a type object seen through reflection: __mro__, __dict__.get(name), __name__')
+        tyd = AbsClass('TyDict', fields={}, methods={'get': dict_get}, text='the __dict__ of a type object')
+        fn = AbsClass('Fn', fields={}, methods={}, text='a function object found in a type __dict__')
+        sig = AbsClass('Sig', fields={}, methods={}, attrs={'parameters': lambda I, o: VAbs('Params', o.key)}, text='inspect.signature(f)')
+        params = AbsClass('Params', fields={}, methods={'values': lambda ex_, a, k: VAbs('ParamVals', a[0].key)}, text='signature.parameters')
+        names = AbsClass('NameList', fields={}, methods={'__contains__': lambda ex_, a, k: VBool(rp(a[0].key)) if isinstance(a[1], VStr) and a[1].s == 'remote'
+                                                                  else (_ for _ in ()).throw(Undecided('membership of another name in the parameter names'))},
+                         text='[p.name for p in signature.parameters.values()]')
+        kinds = AbsClass('KindList', fields={}, methods={'__contains__': lambda ex_, a, k: VBool(vk(a[0].key)) if isinstance(a[1], VExt) and a[1].name.endswith('VAR_KEYWORD')
+                                                                  else (_ for _ in ()).throw(Undecided('membership of another kind in the parameter kinds'))},
+                         text='[p.kind for p in signature.parameters.values()]')
+        return {'Ty': ty, 'TyDict': tyd, 'Fn': fn, 'Sig': sig, 'Params': params, 'NameList': names, 'KindList': kinds}
+
+    def setup(ex_, env):
+        I = ex_.interp
+        ex_.abs_classes.update(classes())
+        ex_.ext_models['inspect.signature'] = lambda ex2, a, k: VAbs('Sig', a[0].key)
+        t0 = ex_.fresh('t0', Val)
+        env['t'] = VAbs('Ty', t0)
+        env['cls'] = VClass(repo.cls(SRGS))
+        sup = ex_.alloc(HSymList(ex_.fresh('supported_classes', SeqVal)))
+        cache = ex_.alloc(HSymDict(ex_.fresh('cache_dom', z3.ArraySort(Val, smt.Bool)), ex_.fresh('cache_map', z3.ArraySort(Val, Val))))
+        ex_.class_attrs[(META, 'supported_classes')] = sup
+        ex_.class_attrs[(META, '_cls_check_cache')] = cache
+        env['sup'], env['cache'] = sup, cache
+        env['sup0'] = VSeq(ex_.heap[sup.addr].seq)
+        env['cache_dom0'], env['cache_map0'] = ex_.heap[cache.addr].dom, ex_.heap[cache.addr].map
+        ex_.ghost['cnt_track'] = [lower(env['t'], ex_)]
+        ex_.ghost['keyerror_forks'] = True
+
+        def comp(kind):
+            def hook(I2, e, fr):
+                s = I2.lookup('signature', fr)
+                return VAbs(kind, s.key)
+            return hook
+        ex_.ghost['__comp_hooks__'] = {(CHK, 'list', 0): comp('NameList'), (CHK, 'list', 1): comp('KindList')}
+        # representation invariant of the metaclass: only types whose cached answer exists are registered
+        tl = lower(env['t'], ex_)
+        ex_.assume(z3.Implies(z3.Contains(ex_.heap[sup.addr].seq, z3.Unit(tl)), z3.Select(ex_.heap[cache.addr].dom, tl)))
+
+    def key_at(P, j):
+        return Val.vakey(P[j])
+
+    def prefix_inv(c):
+        ex_ = c.ex
+        P, i = c.env['__seq__'].e, c.env['__i__'].e
+        j, j2 = z3.Int('j'), z3.Int('j2')
+        has_remote, allow = c.env['has_remote'].e, c.env['allow_remote'].e
+        A = z3.ForAll([j], z3.Implies(z3.And(0 <= j, j < i), z3.Not(red(key_at(P, j)))))
+        B = has_remote == z3.Exists([j], z3.And(0 <= j, j < i, remote(key_at(P, j))))
+        C = allow == z3.ForAll([j], z3.Implies(z3.And(0 <= j, j < i), z3.Not(plain(key_at(P, j)))))
+        D = z3.ForAll([j, j2], z3.Implies(z3.And(0 <= j2, j2 < j, j < i, remote(key_at(P, j))), z3.Not(plain(key_at(P, j2)))))
+        return z3.And(A, B, C, D, c.env['__seq__'].e == ex_.ghost['__mro_prefix__'])
+    prefix_inv.__doc__ = ('for the classes visited so far: none defines a reduce hook; has_remote == one of them is remote; allow_remote == none of them is plain; '
+                          'no remote class is preceded by a plain one')
+
+    def post(c):
+        ex_ = c.ex
+        t = lower(c.env['t'], ex_)
+        r = c.env['result']
+        rb = r.e if isinstance(r, VBool) else Val.vb(lower(r, ex_))
+        cache = ex_.heap[c.env['cache'].addr]
+        sup = ex_.heap[c.env['sup'].addr].seq
+        dom0, map0, sup0 = c.env['cache_dom0'], c.env['cache_map0'], c.env['sup0'].e
+        cached = z3.Select(dom0, t)
+        P = ex_.ghost['__mro_prefix__']
+        j, j2 = z3.Int('j'), z3.Int('j2')
+        hit = z3.And(lower(r, ex_) == z3.Select(map0, t), cache.dom == dom0, cache.map == map0, sup == sup0)
+        n = z3.Length(P)
+        spec = z3.And(z3.ForAll([j], z3.Implies(z3.And(0 <= j, j < n), z3.Not(red(key_at(P, j))))),
+                      z3.Exists([j], z3.And(0 <= j, j < n, remote(key_at(P, j)))))
+        miss = z3.And(rb == spec,
+                      cache.dom == z3.Store(dom0, t, True), cache.map == z3.Store(map0, t, Val.v_bool(rb)),
+                      sup == z3.If(rb, z3.Concat(sup0, z3.Unit(t)), sup0),
+                      # a chain without reduce hooks that was accepted without a Warning is consistent
+                      z3.Implies(z3.ForAll([j], z3.Implies(z3.And(0 <= j, j < n), z3.Not(red(key_at(P, j))))),
+                                 z3.ForAll([j, j2], z3.Implies(z3.And(0 <= j2, j2 < j, j < n, remote(key_at(P, j))), z3.Not(plain(key_at(P, j2)))))))
+        return z3.If(cached, hit, miss)
+    post.__doc__ = ('a cached answer is returned as it is and nothing changes; otherwise the answer is True exactly when no class of t.__mro__[:-1] defines a reduce hook and '
+                    'one of them has a __getstate__ with a remote parameter, it is stored in the cache, and t is appended to supported_classes exactly when it is True')
+
+    def warn_only_if_inconsistent(c):
+        ex_ = c.ex
+        P = ex_.ghost['__mro_prefix__']
+        j, j2 = z3.Int('j'), z3.Int('j2')
+        n = z3.Length(P)
+        return z3.Exists([j, j2], z3.And(0 <= j2, j2 < j, j < n, remote(key_at(P, j)), plain(key_at(P, j2))))
+    warn_only_if_inconsistent.__doc__ = 'Warning is raised only if some class with a remote-aware __getstate__ is preceded in the MRO by one whose __getstate__ cannot take the flag'
+
+    def su(ex_, env):
+        setup(ex_, env)
+        # the sequence the loop runs over is t.__mro__ without its last element
+        full = mro(env['t'].key)
+        pre = ex_.fresh('mro_prefix', SeqVal)
+        last = ex_.fresh('mro_last', Val)
+        ex_.assume(full == z3.Concat(pre, z3.Unit(last)))
+        ex_.ghost['__mro_prefix__'] = pre
+    con = Contract(CHK, lid='L3', name='C13.L3 what opting in means: __check_type_cached against the specification over the MRO (reduce hooks win, a remote-aware __getstate__ opts in, inconsistent chains warn)',
+                   params={'cls': ('const', None), 't': ('const', None)}, self_class=META, setup=su,
+                   ensures=[post], raises={'Warning': warn_only_if_inconsistent}, raises_only=['Warning'],
+                   loops={0: Loop(invariant=[prefix_inv], variant='__n__ - __i__', modifies=[],
+                                  locals={'allow_remote': 'bool', 'has_remote': 'bool', 'first_not_remote': ty_hint})},
+                   options={'keyerror_forks': True})
+    return [(con, None)]
 
 
 # ------------------------------------------------------------------------------ replay on the real code
